@@ -198,6 +198,13 @@ func evalInitBig(v ssa.Value) (*big.Int, bool) {
 			}
 			return nil, false
 		}
+		if name == modulePath+"/helpers.BipToPip" {
+			// helpers.BipToPip(x) = x * 10^18 (its three-line body is evaluated here instead of being interpreted)
+			if a, ok := evalInitBig(args[0]); ok {
+				return new(big.Int).Mul(a, new(big.Int).Exp(big.NewInt(10), big.NewInt(18), nil)), true
+			}
+			return nil, false
+		}
 		if name == "math/big.NewInt" {
 			return constInt(args[0])
 		}
